@@ -4,7 +4,8 @@ import json, os
 V = os.path.dirname(os.path.dirname(os.path.abspath(__file__)))
 TECH = ("dynamic symbolic execution of the real /repo functions (z3-backed scalars in numpy object arrays, "
         "fork-by-replay path exploration); every obligation decided by z3 (unsat of the negation) per path within "
-        "stated bounds; counterexamples replayed on the unmodified code before being reported")
+        "stated bounds; a sample of the discharged obligations re-decided by cvc5; counterexamples replayed on the "
+        "unmodified code before being reported")
 CHECKS = {}
 def claim(pid, text, note, design):
     CHECKS[pid] = dict(text=text, note=note, design=design)
@@ -22,7 +23,7 @@ m = {
  "engines": [{"name": "symx", "path": "symx/", "serves_properties": sorted(CHECKS),
               "kind_free_text": "home-built dynamic symbolic executor over z3 4.x/5.x python API; runs the real repository functions on symbolic scalars, environment replaced by nondeterministic models (numpy shim, h5py model, multiprocessing model, rng model)"}],
  "checks": [], "not_applicable": [],
- "notes": "exit codes of ./check: 0 held (KNOWN-FINDING lines allowed), 1 VIOLATION, 2 harness error, 3 inconclusive. See DESIGN.md."
+ "notes": "exit codes of ./check: 0 held (KNOWN-FINDING lines allowed), 1 VIOLATION, 2 harness error, 3 inconclusive. The thorough tier explores the quick cases completely and the larger cases within a wall-time box (VERIF_BUDGET_S, default 900 s; 0 = no box); cases cut by the box are listed in the evidence (coverage.time_box) and announced by a PARTIAL line. VERIF_REPO=<checkout> points a check at another checkout of the repository. See DESIGN.md."
 }
 for pid in props:
     if pid in CHECKS:
